@@ -63,7 +63,7 @@ func ruleR21(c *Ctx) *RuleResult {
 		var bad []string
 		n := 0
 		if fn != nil {
-			for _, g := range c.GC(fn).GCs {
+			for _, g := range c.GCTail(fn).GCs {
 				if g.Exit.Op != "return" {
 					continue
 				}
@@ -86,7 +86,7 @@ func ruleR21(c *Ctx) *RuleResult {
 		var bad []string
 		n := 0
 		if fn != nil {
-			for _, g := range c.GC(fn).GCs {
+			for _, g := range c.GCTail(fn).GCs {
 				cs := effCallees(g)
 				if !containsStr(cs, "replaceNode") {
 					continue
@@ -144,7 +144,7 @@ func ruleR21(c *Ctx) *RuleResult {
 		var bad []string
 		seen := map[string]bool{}
 		if fn != nil {
-			for _, g := range c.GC(fn).GCs {
+			for _, g := range c.GCTail(fn).GCs {
 				cs := effCallees(g)
 				for _, nm := range cs {
 					seen[nm] = true
@@ -291,7 +291,7 @@ func ruleR21(c *Ctx) *RuleResult {
 			var bad []string
 			n := 0
 			if fn != nil {
-				for _, g := range c.GC(fn).GCs {
+				for _, g := range c.GCTail(fn).GCs {
 					rot := ""
 					for _, cs := range effCallees(g) {
 						if cs == "singlerot" || cs == "doublerot" || cs == "rotate" {
@@ -328,7 +328,7 @@ func ruleR21(c *Ctx) *RuleResult {
 			var bad []string
 			n := 0
 			if fn != nil {
-				for _, g := range c.GC(fn).GCs {
+				for _, g := range c.GCTail(fn).GCs {
 					for i, ef := range g.Effects {
 						if !(storeToField(ef, "Entries") && ef.Args[1].Op == "res" && strings.Contains(ef.Args[1].String(), "builtin:append")) {
 							continue
@@ -359,7 +359,7 @@ func ruleR21(c *Ctx) *RuleResult {
 		var bad []string
 		if fn != nil {
 			seen := map[string]bool{}
-			for _, g := range c.GC(fn).GCs {
+			for _, g := range c.GCTail(fn).GCs {
 				cs := effCallees(g)
 				over := false
 				for _, a := range g.Guards {
@@ -387,7 +387,7 @@ func ruleR21(c *Ctx) *RuleResult {
 			var bad []string
 			n, nlend, ncollapse := 0, 0, 0
 			if fn != nil {
-				for _, g := range c.GC(fn).GCs {
+				for _, g := range c.GCTail(fn).GCs {
 					for i, ef := range g.Effects {
 						n1, a1, ok := effDo(ef)
 						if !ok || n1 != "deleteEntry" || len(a1) != 3 {
@@ -442,7 +442,7 @@ func ruleR21(c *Ctx) *RuleResult {
 		var bad []string
 		nb, nm := 0, 0
 		if fn != nil {
-			for _, g := range c.GC(fn).GCs {
+			for _, g := range c.GCTail(fn).GCs {
 				cs := effCallees(g)
 				// merge arms
 				if containsStr(cs, "appendChildren") || containsStr(cs, "prependChildren") {
@@ -555,7 +555,7 @@ func ruleR21b(c *Ctx) *RuleResult {
 		var bad []string
 		n := 0
 		if fn != nil {
-			for _, g := range c.GC(fn).GCs {
+			for _, g := range c.GCTail(fn).GCs {
 				if g.Exit.Op != "return" || len(g.Exit.Args) != 1 {
 					bad = append(bad, "unexpected exit")
 					continue
@@ -647,7 +647,7 @@ func ruleR21b(c *Ctx) *RuleResult {
 				}
 				return false
 			}
-			for _, g := range c.GC(fn).GCs {
+			for _, g := range c.GCTail(fn).GCs {
 				for _, a := range g.Guards {
 					a.any(check)
 				}
@@ -674,7 +674,7 @@ func ruleR21b(c *Ctx) *RuleResult {
 			if fnName(fn) == "rebalance" {
 				anchor = fn
 			}
-			for _, g := range c.GC(fn).GCs {
+			for _, g := range c.GCTail(fn).GCs {
 				for _, ef := range g.Effects {
 					nm, args, ok := effDo(ef)
 					if !ok || nm != "rebalance" || len(args) != 3 {
